@@ -89,6 +89,19 @@ def _job(job):
                 out["problems"].append(("restriction", f"candidates {sub.tolist()}: {us[sub].tolist()} vs {u0[sub].tolist()}"))
         except Exception as e:
             out["problems"].append(("exception_restriction", repr(e)[:150]))
+        if E.feat:
+            # restriction in the feature-row addressing: the rows of a SUBSET of the unlabeled samples get the utilities the
+            # same samples have under candidates=None (sample-wise scoring x representation equivalence)
+            try:
+                k2 = int(rng.integers(1, len(unl) + 1))
+                sub2 = np.sort(rng.choice(unl, size=k2, replace=False))
+                _, ur = q(X, y, X[sub2])
+                out["did"].append("restriction_rows")
+                if not close(u0[sub2], ur):
+                    out["problems"].append(("restriction_rows", f"rows of samples {sub2.tolist()}: {ur.tolist()} vs {u0[sub2].tolist()} under candidates=None"))
+            except Exception as e:
+                if err_class(e) != "MappingError":
+                    out["problems"].append(("exception_restriction_rows", repr(e)[:150]))
         try:
             p = rng.permutation(n)
             _, up = q(X[p], y[p], None)
@@ -121,7 +134,7 @@ def run(ctx):
                    "estimates consuming draws in row order (ExpectedModelChangeMaximization, KLDivergenceMaximization[monte_carlo], CostEmbeddingAL) are exempt from restriction / permutation, as the property's quantifier says"]
     ctx.coq_props()
     entries = PL._entries()
-    jobs = [(ei, (ctx.seed, ei, h, 808)) for ei, E in enumerate(entries) for h in range((2 if E.slow else 4) if ctx.is_quick else (6 if E.slow else 28))]
+    jobs = [(ei, (ctx.seed, ei, h, 808)) for ei, E in enumerate(entries) for h in range((3 if E.slow else 8) if ctx.is_quick else (6 if E.slow else 40))]
     for out in pmap(_job, jobs, chunksize=2):
         ctx.count(out["name"], max(1, len(out["did"])))
         for d in out["did"]:
